@@ -429,6 +429,18 @@ func (n *CNode) Observe(inserted []string, roundsFrom int, full bool) map[string
 		dd := d
 		blocks = append(blocks, n.blockObs(&dd))
 	}
+	rr := n.rrObs()
+	// an event that left the cache before its round-received could be read
+	// from it is reported through the frame it was committed in
+	for _, b := range blocks {
+		bm := b.(map[string]interface{})
+		for _, id := range bm["evs"].([]string) {
+			if inf, ok := n.w.byID[id]; ok && n.undet[inf.Hash] {
+				rr = append(rr, map[string]interface{}{"e": id, "rr": bm["rr"]})
+				delete(n.undet, inf.Hash)
+			}
+		}
+	}
 	selfsigs := []int{}
 	for _, s := range n.core.SelfBlockSignatures() {
 		selfsigs = append(selfsigs, s.Index)
@@ -448,7 +460,7 @@ func (n *CNode) Observe(inserted []string, roundsFrom int, full bool) map[string
 		ipool = append(ipool, n.w.ItxInfoOf(&t).ID)
 	}
 	o := map[string]interface{}{
-		"vals": n.valsObs(inserted), "rr": n.rrObs(), "blocks": blocks,
+		"vals": n.valsObs(inserted), "rr": rr, "blocks": blocks,
 		"rounds": n.roundsObs(roundsFrom), "known": n.knownObs(),
 		"lcr": lcr, "undet": len(hgr.UndeterminedEvents), "loaded": hgr.PendingLoadedEvents,
 		"anchor": anchor, "lastBlock": n.store.LastBlockIndex(), "lastRound": n.store.LastRound(),
